@@ -53,6 +53,7 @@ var conflictEdits = []conflictEdit{
 	{"kind-object-vs-union", "type Clash { a: Int }\ntype ClashM { a: Int }", "type ClashM { a: Int }\nunion Clash = ClashM", "", false},
 	{"kind-enum-vs-scalar", "enum Clash { A }", "scalar Clash", "", false},
 	{"node-ness-mismatch", "type Half implements Node { id: ID! }", "type Half { id: ID! x: Int }", "", false},
+	{"node-ness-mismatch-interface", "interface HalfI implements Node { id: ID! a: Int }\ntype HalfIM implements HalfI & Node { id: ID! a: Int }", "interface HalfI { id: ID! }", "", false},
 	{"node-type-field-twice", "type Twice implements Node { id: ID! shared: Int }", "type Twice implements Node { id: ID! shared: Int }", "", false},
 	{"value-type-partial-overlap", "type Part { a: Int b: Int }", "type Part { a: Int c: Int }", "", false},
 	{"value-type-partial-overlap-with-id", "type PartId { id: ID! a: Int }", "type PartId { a: Int c: Int }", "", false},
